@@ -39,6 +39,7 @@ fn menu() -> Vec<Expr> {
         m.push(Expr::Test(Test::Name(p.into())));
         m.push(Expr::Test(Test::IName(p.into())));
         m.push(Expr::Test(Test::Path(p.into())));
+        m.push(Expr::Test(Test::IPath(p.into())));
     }
     // patterns whose letters are not ASCII, and a pattern next to its own escaped spelling
     for p in ["ж*", "Ж*", "a\\b", "a\\\\b", "q\"r", "q\\\"r"] {
